@@ -20,7 +20,7 @@ CHECKS = {
         note="Pin key = (lower-cased host, port) as derived from the URL; TOFU-off runs only check that the store stays untouched.",
         tech="runtime monitoring: step-by-step comparison of real outcomes and the sqlite table with a reference pin-map model over live TLS histories"),
     "C04": dict(cat="exploration",
-        text="Held on the explored chains: real MiddlewareChain over real RateLimiter/AccessControl/CertificateAuth and scripted allow/deny/raise/slow components in every order (1-3 components), gemini and titan requests, reads and disconnects while the chain is pending, both TLS layers; recording proxies, spy handlers, an audit hook and tree snapshots give the per-connection order of chain/handler/filesystem events. A listed certificate, look-alikes (same names and serial, other key), unlisted and no certificate take turns on one process (L1 and PyOpenSSL). One chain also lives through a crowd of thousands of other addresses between a drained client's visits. Deny entries spelling the peer's address in other textual forms (IPv6 upper case / uncompressed, /128, /32, covering blocks) and two connections in flight on one chain are covered.",
+        text="Held on the explored chains: real MiddlewareChain over real RateLimiter/AccessControl/CertificateAuth and scripted allow/deny/raise/slow components in every order (1-3 components), gemini and titan requests, reads and disconnects while the chain is pending, both TLS layers; recording proxies, spy handlers, an audit hook and tree snapshots give the per-connection order of chain/handler/filesystem events. A listed certificate, look-alikes (same names and serial, other key), unlisted and no certificate take turns on one process (L1 and PyOpenSSL). One chain also lives through a crowd of thousands of other addresses between a drained client's visits. Deny entries spelling the peer's address in other textual forms (IPv6 upper case / uncompressed, /128, /32, covering blocks) and two connections in flight on one chain are covered. Certificate rules with a present-but-empty list of allowed certificates admit nobody.",
         note="Expected decision is computed from configuration by the harness; scripted deny responses are well-formed.",
         tech="runtime monitoring: per-connection event-order check (mw_start/mw_end/handler_start/fs events) on the virtual-time simulator and TLS sandwich"),
     "C05": dict(cat="exploration",
@@ -28,7 +28,7 @@ CHECKS = {
         note="Rule prefixes are directory-level; capsules have no symlinks; over-blocking judged only for canonical spellings.",
         tech="runtime monitoring: sentinel-identified resource vs first-matching-rule policy model, real TLS client certificates (L2 sandwich, L3 live)"),
     "C06": dict(cat="exploration",
-        text="Held on the executions produced: every response stream decrypted by a real TLS client (in-process sandwich on both backends with ciphertext segmentations and a bounded pipe towards readers stalling up to 29 virtual seconds through the captured start_server wiring, plus live loopback servers with four reader profiles) is compared byte for byte with header+body and must end in a TLS close. Static files (incl. text with BOM, CRLF, lone CR, Unicode separators, NUL; per-location and server-wide size limits from TOML) are compared with their bytes on disk. Handlers answer 20 and other 2x statuses, immediately or after 45 virtual seconds; a bounded pipe with a client that keeps reading; static files are rewritten (same size, time stamps kept or not) while the server runs. 2x responses whose body cannot be sent as it is (lone surrogates, bytearray, memoryview) and index files reached through their directory are covered.",
+        text="Held on the executions produced: every response stream decrypted by a real TLS client (in-process sandwich on both backends with ciphertext segmentations and a bounded pipe towards readers stalling up to 29 virtual seconds through the captured start_server wiring, plus live loopback servers with four reader profiles) is compared byte for byte with header+body and must end in a TLS close. Static files (incl. text with BOM, CRLF, lone CR, Unicode separators, NUL; per-location and server-wide size limits from TOML) are compared with their bytes on disk. Handlers answer 20 and other 2x statuses, immediately or after 45 virtual seconds; a bounded pipe with a client that keeps reading; static files are rewritten (same size, time stamps kept or not) while the server runs. 2x responses whose body cannot be sent as it is (lone surrogates, bytearray, memoryview) and index files reached through their directory are covered. Static files whose last character is cut off are served whole or refused.",
         note="Client side is CPython ssl/OpenSSL 3.0; sizes are the listed boundary set plus random ones, not every length; CPython's own 30 s ssl_shutdown_timeout bounds how long a stalled reader can be served.",
         tech="runtime monitoring: byte-exact stream comparison at the client boundary (position-counter bodies) on L2 sandwich and L3 live sockets"),
     "C07": dict(cat="exploration",
@@ -40,7 +40,7 @@ CHECKS = {
         note="Grey zones (chars outside the URI alphabet, empty userinfo/fragment, ports > 65535, IPvFuture, odd titan params) are undecided and counted.",
         tech="runtime monitoring: independent URI recogniser as oracle over spy-observed handler arguments (L1 simulator)"),
     "C09": dict(cat="exploration",
-        text="Held on the generated configurations and peers: AccessControl built from objects, and TOML -> ServerConfig.from_toml -> get_access_control_config -> start_server wiring -> protocol with fake peer addresses, plus live sockets from 127.0.0.1 and ::1; decisions compared with an integer-arithmetic CIDR model at and around every network boundary. Lists are also loaded and wired by the `nauyaca serve` command itself (create_server stubbed). One component also decides about thousands (thorough: 70 000) of distinct peers and then about the early ones again.",
+        text="Held on the generated configurations and peers: AccessControl built from objects, and TOML -> ServerConfig.from_toml -> get_access_control_config -> start_server wiring -> protocol with fake peer addresses, plus live sockets from 127.0.0.1 and ::1; decisions compared with an integer-arithmetic CIDR model at and around every network boundary. Lists are also loaded and wired by the `nauyaca serve` command itself (create_server stubbed). One component also decides about thousands (thorough: 70 000) of distinct peers and then about the early ones again. Single addresses whose low bits are all zero (2001:db8::, fe80::, 10.0.0.0) are single hosts.",
         note="Empty allow list and IPv4-mapped peers are grey; host-bits-set entries may prevent start-up or be read as the enclosing network.",
         tech="runtime monitoring: decision-by-decision comparison with an integer CIDR reference model (L0 objects, L1 captured wiring, L3 live)"),
     "C10": dict(cat="exploration",
@@ -52,7 +52,7 @@ CHECKS = {
         note="Writes are observed at asyncio.sslproto._SSLProtocolTransport.write.",
         tech="runtime monitoring: peer-side byte counting + client-side event-order monitor (write vs verify_return) on live TLS connections"),
     "C12": dict(cat="fault_enumeration",
-        text="Every SQL statement boundary (execute/commit on every connection, plus after-commit) of trust/verify/revoke/clear/import(merge|replace) is enumerated both as a crash point (operation runs in a forked child killed with os._exit at the boundary, file reopened) and as an injected OperationalError; import files carry each defect kind at every entry position; export->import round trips hostile host names. The table must equal the before or the after state. The command-line entry points (tofu import [--replace] / clear / revoke through typer's CliRunner) get the same enumeration; a store of mutually look-alike names (SQL wildcards, case, Unicode) checks that single-host operations touch exactly the named rows. Round trips include stores whose names differ only in letter case / Unicode form / IPv6 spelling on one port.",
+        text="Every SQL statement boundary (execute/commit on every connection, plus after-commit) of trust/verify/revoke/clear/import(merge|replace) is enumerated both as a crash point (operation runs in a forked child killed with os._exit at the boundary, file reopened) and as an injected OperationalError; import files carry each defect kind at every entry position; export->import round trips hostile host names. The table must equal the before or the after state. The command-line entry points (tofu import [--replace] / clear / revoke through typer's CliRunner) get the same enumeration; a store of mutually look-alike names (SQL wildcards, case, Unicode) checks that single-host operations touch exactly the named rows. Round trips include stores whose names differ only in letter case / Unicode form / IPv6 spelling on one port. Imports that succeed at the edges of the domain (no hosts, nothing new, only declined conflicts) are compared with the reference after-state.",
         note="Crash points are statement boundaries (SQLite's byte-level commit atomicity is trusted); last_seen excluded.",
         tech="runtime monitoring with fault injection: exhaustive statement-boundary crash/error enumeration, before/after table-dump oracle"),
     "C13": dict(cat="exploration",
@@ -60,7 +60,7 @@ CHECKS = {
         note="Grey status tokens and malformed charset parameters are undecided; L3 timeouts are watchdogs, verdicts use event order.",
         tech="runtime monitoring: independent response parser as oracle + future-resolution monitor (L1 virtual loop, L3 live peers)"),
     "C14": dict(cat="fault_enumeration",
-        text="FileUploadHandler (also via ServerConfig.get_upload_handler and through the protocol) on upload trees with symlinks and prefix-sharing siblings; every stored/replaced/deleted upload is re-run with RLIMIT_FSIZE partial writes (0,1,half,size-1) and with an injected ENOSPC/EIO/EACCES at every index of the open/replace/rename/unlink/mkdir call sequence; a byte-exact diff of the directory and its surroundings plus the audit trail must show exactly one authorised change or none. One handler serves the same paths again while the upload tree is rearranged between requests; an accepted request must have changed the file its path denotes at that moment. Upload sizes go up to 4 MiB + 1 (powers of two and their neighbours); one handler also serves hundreds of requests in a row. What a request declares (media type, size) is taken from the line as written, not from the parsed request; uploads followed by stray reads (back to back, during a pending chain) go through the protocol.",
+        text="FileUploadHandler (also via ServerConfig.get_upload_handler and through the protocol) on upload trees with symlinks and prefix-sharing siblings; every stored/replaced/deleted upload is re-run with RLIMIT_FSIZE partial writes (0,1,half,size-1) and with an injected ENOSPC/EIO/EACCES at every index of the open/replace/rename/unlink/mkdir call sequence; a byte-exact diff of the directory and its surroundings plus the audit trail must show exactly one authorised change or none. One handler serves the same paths again while the upload tree is rearranged between requests; an accepted request must have changed the file its path denotes at that moment. Upload sizes go up to 4 MiB + 1 (powers of two and their neighbours); one handler also serves hundreds of requests in a row. What a request declares (media type, size) is taken from the line as written, not from the parsed request; uploads followed by stray reads (back to back, during a pending chain) go through the protocol. Handlers are also built from a configuration file with every key left out whose documented default is meant.",
         note="Single fault per request; parent-directory creation tolerated and counted.",
         tech="runtime monitoring with fault injection: tree-diff + audit-trail oracle under enumerated OS-call failpoints and real partial writes"),
     "C15": dict(cat="exploration",
@@ -68,7 +68,7 @@ CHECKS = {
         note="Stdlib handshake bound is CPython's 60 s; after close CPython waits up to 30 s for the peer's close_notify (checked finite).",
         tech="runtime monitoring: virtual-time bounded-progress check (close time, quiescence with open transport) on L1/L2, live sample L3"),
     "C16": dict(cat="exploration",
-        text="Held on the explored graphs: GeminiClient.get with TOFU against three scripted TLS servers implementing redirect graphs (all graphs for N<=2 over 15 target forms, chains/cycles up to length 8, random N<=8) x max_redirects 0..6 x follow on/off; peers' connection logs and a verify() counter are compared with the harness's walk of the graph. Seven fetches in flight on one client (chains at and over the limit, cycle, self-loop) check that each keeps its own count and history. Endless chains whose every target is derived from the URL just requested; the `nauyaca get` command with --max-redirects / --no-redirects. Node queries hold URLs themselves ('://' further along is not a second scheme).",
+        text="Held on the explored graphs: GeminiClient.get with TOFU against three scripted TLS servers implementing redirect graphs (all graphs for N<=2 over 15 target forms, chains/cycles up to length 8, random N<=8) x max_redirects 0..6 x follow on/off; peers' connection logs and a verify() counter are compared with the harness's walk of the graph. Seven fetches in flight on one client (chains at and over the limit, cycle, self-loop) check that each keeps its own count and history. Endless chains whose every target is derived from the URL just requested; the `nauyaca get` command with --max-redirects / --no-redirects. Node queries hold URLs themselves ('://' further along is not a second scheme). Chains whose hops each answer after a second are followed with a per-request timeout of three seconds.",
         note="Relative/empty/upper-case-scheme/oversize/malformed targets may yield an error or the unchanged 3x.",
         tech="runtime monitoring: connection-log and verify-call monitors vs reference redirect-graph walk (live TLS peers)"),
     "C17": dict(cat="exploration",
@@ -84,7 +84,7 @@ CHECKS = {
         note="Host comparison case-insensitive; '' == '/' for paths; empty query == no query.",
         tech="runtime monitoring: round-trip/idempotence oracle against an independent URI recogniser (L0 calls, L3 live client/server)"),
     "C20": dict(cat="exploration",
-        text="Held on the probed cells: real handshakes offering exactly one protocol version (TLS 1.0-1.3, SECLEVEL 0) against all four start_server construction paths and both factory functions with client-cert request on/off; client contexts (TOFU, CA, GeminiClient.get) against peers capped at TLS 1.0/1.1; plaintext and random bytes to every server variant, and (virtual time, both TLS layers) peers that send nothing / a few bytes / partial records and then wait past every timeout - everything ever written to the raw socket is inspected. Each refusal is paired with a control peer proving the old version is otherwise negotiable here. Certificate / key files that are out of order at start-up (nine kinds): refuse to start or listen with TLS; what the `nauyaca serve` command listens with is probed for clear text and, at security level 0, for the version floor. Servers that follow one another in one process (built, lowered to security level 0, probed, collected) are each offered TLS 1.1; the controls use PyOpenSSL / ssl directly, never nauyaca code. The serve command is also started with its material given through NAUYACA_* variables; every other successive context is built under an operator-like environment (OPENSSL_CONF, SSL_CERT_FILE, SSLKEYLOGFILE).",
+        text="Held on the probed cells: real handshakes offering exactly one protocol version (TLS 1.0-1.3, SECLEVEL 0) against all four start_server construction paths and both factory functions with client-cert request on/off; client contexts (TOFU, CA, GeminiClient.get) against peers capped at TLS 1.0/1.1; plaintext and random bytes to every server variant, and (virtual time, both TLS layers) peers that send nothing / a few bytes / partial records and then wait past every timeout - everything ever written to the raw socket is inspected. Each refusal is paired with a control peer proving the old version is otherwise negotiable here. Certificate / key files that are out of order at start-up (nine kinds): refuse to start or listen with TLS; what the `nauyaca serve` command listens with is probed for clear text and, at security level 0, for the version floor. Servers that follow one another in one process (built, lowered to security level 0, probed, collected) are each offered TLS 1.1; the controls use PyOpenSSL / ssl directly, never nauyaca code. The serve command is also started with its material given through NAUYACA_* variables; every other successive context is built under an operator-like environment (OPENSSL_CONF, SSL_CERT_FILE, SSLKEYLOGFILE). A child interpreter started with -O builds both factories' contexts and is offered TLS 1.0 / 1.1 as well.",
         note="SSLv3 cannot be offered by this interpreter (recorded as unreachable).",
         tech="runtime monitoring: control-validated handshake probing and plaintext probes on live sockets"),
 }
